@@ -246,7 +246,23 @@ int main(int argc, char** argv) {
             // ---- steady regime under max_allowed_parallelism = L: at most L-1 workers inside bodies at once
             int L = 1 + (int)r.below(8);
             g_phase.store("steady budget regime");
-            tbb::global_control g(tbb::global_control::max_allowed_parallelism, L);
+            // Half of the regimes are set up by 2-4 threads that construct their global_control objects at the same moment (values
+            // L..L+3, the smallest wins); the objects stay alive until the regime has been judged. The limit in force is L either way.
+            int setters = r.chance(1, 2) ? 2 + (int)r.below(3) : 0;
+            std::atomic<int> arrived{0}, constructed{0}; std::atomic<bool> go{false}, release{false};
+            std::vector<std::thread> set_threads; uint64_t sseed = r.next();
+            for (int k = 0; k < setters; k++) set_threads.emplace_back([&, k] {
+                Rng sr(mix(sseed, k)); int v = k == (int)(sseed % (uint64_t)setters) ? L : L + 1 + (int)sr.below(3);
+                arrived++; while (!go.load(std::memory_order_acquire)) { _mm_pause(); }
+                spin_iters((unsigned)sr.below(300));
+                tbb::global_control gk(tbb::global_control::max_allowed_parallelism, (size_t)v);
+                constructed++;
+                while (!release.load(std::memory_order_acquire)) sleep_us(200);
+            });
+            struct Rel { std::atomic<bool>& rel; std::vector<std::thread>& th; ~Rel() { rel.store(true); for (auto& t : th) t.join(); } } rel_guard{ release, set_threads };
+            if (setters) { while (arrived.load() < setters) sched_yield(); go.store(true, std::memory_order_release); while (constructed.load() < setters) sched_yield(); R.stat("budget_regimes_set_up_by_concurrent_global_control_constructors"); }
+            std::unique_ptr<tbb::global_control> g_single; if (!setters) g_single.reset(new tbb::global_control(tbb::global_control::max_allowed_parallelism, L));
+            if (tbb::global_control::active_value(tbb::global_control::max_allowed_parallelism) != (size_t)L) fail("c16.global-control-active-value", "active_value(max_allowed_parallelism) is " + std::to_string(tbb::global_control::active_value(tbb::global_control::max_allowed_parallelism)) + " while the smallest live limit is " + std::to_string(L));
             sleep_us(1000);
             if (!drain_workers()) { R.stat("budget_regimes_skipped_not_drained"); R.scenarios++; progress(); continue; }   // not a steady regime: no verdict
             std::atomic<int> workers_in{0}, maxw{0}, all_in{0}, maxall{0};
